@@ -568,6 +568,42 @@ def r13_options_forwarded(ctx, rule):
         ctx.ok(rule, 'lib_guesser/grammar_io.py', 'all %d hand-overs of skip_brute / skip_case / base_structure_folder pass the option on by name' % n)
 
 
+def r20_structure_tokeniser(ctx, rule):
+    """A base structure `A4D12O1` is split into its transitions by one pass over its characters: a letter opens a new transition,
+    anything else is appended to the LAST one (`replacements[-1] += ch`).  (Mutation sweep: `[0]` glued every length digit to the
+    first transition - `A4D2` became ['A42', 'D'] - and the loader raised nothing for structures of one transition.)"""
+    q = 'lib_guesser/grammar_io.py::_load_base_structures'
+    fn = ctx.fn(q)
+    ctx.stats['functions'].add(q)
+    found = 0
+    ok = True
+    for lp in [n for n in walk_local(fn) if isinstance(n, ast.For) and isinstance(n.target, ast.Name)]:
+        ch = lp.target.id
+        opens = [c for c in calls_in(lp) if isinstance(c.func, ast.Attribute) and c.func.attr == 'append' and len(c.args) == 1 and U(c.args[0]) == ch]
+        glues = [st for st in walk_stmts(lp.body) if isinstance(st, ast.AugAssign) and isinstance(st.op, ast.Add) and U(st.value) == ch
+                 and isinstance(st.target, ast.Subscript)]
+        if not opens or not glues:
+            continue
+        found += 1
+        for g in glues:
+            if U(g.target.slice) != '-1':
+                ok = False
+                ctx.bad(rule, q, 'a non-letter is appended to ' + U(g.target), 'the digits belong to the transition opened last', None, g, firm=True)
+            if U(g.target.value) != U(opens[0].func.value):
+                ok = False
+                ctx.bad(rule, q, 'letters open transitions in %s, digits are appended in %s' % (U(opens[0].func.value), U(g.target.value)),
+                        'one list of transitions', None, g, firm=True)
+        for t, pol in path_conditions(ctx.repo.modules[q.partition('::')[0]], [s_ for s_ in walk_stmts(lp.body) if any(x is opens[0] for x in ast.walk(s_))
+                                                                             and isinstance(s_, ast.Expr)][0], stop=lp):
+            if U(t) not in ('%s.isalpha()' % ch,) or not pol:
+                ok = False
+                ctx.unk(rule, q, 'a transition is opened under %s' % U(t)[:60])
+    if found == 0:
+        ctx.unk(rule, q, 'the character pass that splits a base structure into transitions is not of a form this rule knows')
+    elif ok:
+        ctx.ok(rule, q, 'letters open a transition, every other character is appended to the last one')
+
+
 def r14_saved_flags_verbatim(ctx, rule):
     """What a new session writes into the rule_info section of the .sav is what the user asked for: rule_name, skip_brute and
     skip_case are saved as str(<options>[<same key>]) (the name as it is).  load_save restores them verbatim (R9), so a value
@@ -640,7 +676,9 @@ def rules(tier):
             # C14-da: skip_case read from [session_info] with fallback=False - an --all_lower session resumes with case mangling
             ('C14.R18', _shared_rule('c08', 'r5_sav_keys')),
             # C14-db: under --all_lower the restore walk stops at every capitalisation position
-            ('C14.R19', _shared_rule('c08', 'r24_restore_visits_every_position'))]
+            ('C14.R19', _shared_rule('c08', 'r24_restore_visits_every_position')),
+            # mutation sweep: replacements[0] += item
+            ('C14.R20', _shared_rule('c14', 'r20_structure_tokeniser'))]
 
 
 META = {
